@@ -68,8 +68,8 @@ static void build(size_t cap, bool shared, size_t ucap)
         for (unsigned j = 0; j < nv; j++) {
                 v3[j].type = (cat_var_type)rn(5); v3[j].access = chance(70) ? CAT_VAR_ACCESS_READ_WRITE : CAT_VAR_ACCESS_READ_ONLY;
                 size_t sz = v3[j].type <= CAT_VAR_NUM_HEX ? (size_t[]){ 1, 2, 4 }[rn(3)] : 1 + rn(6);
-                uint8_t *d = w_vdata(&v3[j], sz); for (size_t b = 0; b < sz; b++) d[b] = (uint8_t)('a' + rn(26)); if (v3[j].type == CAT_VAR_BUF_STRING) d[rn((unsigned)sz)] = 0;
-                v3[j].name = chance(50) ? (pct ? "n%u%" : "n") : NULL;
+                uint8_t *d = w_vdata(&v3[j], sz); for (size_t b = 0; b < sz; b++) d[b] = (uint8_t)('a' + rn(26)); if (v3[j].type == CAT_VAR_BUF_STRING && chance(75)) d[rn((unsigned)sz)] = 0;      /* a quarter of the strings fill their storage completely: no NUL inside data_size */
+                v3[j].name = chance(50) ? (pct ? "n%u%" : chance(15) ? "measurement_interval_in_milliseconds_channel_0" : "n") : NULL;
                 v4[j] = v3[j];
         }
         a[4].description = a[3].description;
